@@ -7,8 +7,8 @@ from .. import gen
 from ..util import scale_of
 
 ID = "C20"
-CASES = {"quick": 700, "thorough": 9000}
-MIN_NONTRIVIAL = {"quick": 200, "thorough": 2500}
+CASES = {"quick": 700, "thorough": 80000}
+MIN_NONTRIVIAL = {"quick": 200, "thorough": 6472}
 REQUIRED = ["diagram plot: one scatter collection per plotted diagram with its points (single precision)",
             "diagram plot: infinite deaths on one dashed line strictly inside the axes", "diagram plot: limits contain all finite points",
             "diagram plot: title / labels / legend as requested", "diagram plot: nothing drawn on any other axes",
